@@ -46,6 +46,22 @@ def gen(chk):
             for key in list(range(-9, 10)) + B63:
                 cases.append(case(kr, n, 1, key, None, None, FORMS[f % len(FORMS)])); f += 1
     exhaustive_n = len(cases)
+    # composed operations: a slice, then a subscript (mode 18+k, k in -7..7) or one of 8 second slices (mode 100+j)
+    # of its result - the first slice's result is a lazy object for lists / iterables
+    second_modes = [18 + k for k in range(-7, 8)] + [100 + j for j in range(8)]
+    cb = [None] + list(range(-4, 5))
+    cs = [None, -2, -1, 1, 2, 3]
+    for kr in KINDS:
+        for n in (range(0, 7) if chk.thorough else (0, 1, 3, 6)):
+            for st in cb:
+                for sp in cb:
+                    for se in cs:
+                        if chk.thorough:
+                            for m in second_modes:
+                                cases.append(case(kr, n, m, st, sp, se, FORMS[f % len(FORMS)])); f += 1
+                        else:
+                            for _ in range(2):
+                                cases.append(case(kr, n, rng.choice(second_modes), st, sp, se, FORMS[f % len(FORMS)])); f += 1
     # boundary part of the property's box: sampled in quick, dense in thorough
     allb = [None] + list(range(-9, 10)) + B63
     alls = [None] + list(range(-4, 5)) + B63
@@ -67,10 +83,15 @@ def describe(c):
     kind = ["str", "bytes", "tuple", "list", "lazy(sized)", "lazy(unsized)"][c[0]]
     def o(t, v): return "" if t == 0 else str(v)
     n = c[9]
+    SECOND = ["[::-1]", "[1:]", "[:-1]", "[::2]", "[-2:]", "[1:-1]", "[-1::-1]", "[0:2]"]
     if c[1] == 1:
         expr = "x[%s]" % c[3]
     else:
         expr = "x[%s:%s:%s]" % (o(c[2], c[3]), o(c[4], c[5]), o(c[6], c[7]))
+        if 2 <= c[1] < 34:
+            expr += "[%d]" % (c[1] - 18)
+        elif c[1] >= 100:
+            expr += SECOND[c[1] - 100]
     return {"container": kind, "elements": c[10:10 + n], "expr": expr, "bounds_as": ["literals", "variables", "variables (i128)", "variables (u128)", "'n'|int", "n.0|int", "variables (u64)"][c[8]]}
 
 
@@ -110,6 +131,8 @@ def main():
     for i, c in enumerate(cases):
         out = spec[i]
         hist["kind=%d" % c[0]] += 1
+        hist["op=" + ("slice" if c[1] == 0 else "subscript" if c[1] == 1 else "slice-then-subscript" if c[1] < 34 else "slice-then-slice")] += 1
+        hist["bounds_as=%d" % c[8]] += 1
         if out[0] == 1: hist["error"] += 1
         elif out[0] == 0:
             m = out[2]
@@ -121,7 +144,7 @@ def main():
             hist["element"] += 1; nontriv.add(tuple(c))
     chk.cov["evaluations"] = len(cases) * 2
     chk.cov["distinct_nontrivial"] = len(nontriv)
-    chk.cov["rule"] = ("exhaustive small box (first %d cases) + seeded samples of the property's full box incl. +-2^63/2^64/2^127 boundaries; "
+    chk.cov["rule"] = ("exhaustive small box (first %d cases) + composed operations (slice then subscript / second slice) + seeded samples of the property's full box incl. +-2^63/2^64/2^127 boundaries; "
                        "each case runs in a debug and a release build; non-trivial = distinct case whose Python result is a proper non-empty "
                        "selection (shorter than the container or taken with a step other than 1) or a subscript that yields an element" % exn)
     chk.cov["exhaustive"] = False
